@@ -55,7 +55,7 @@ func runC09(r *rt.Run) {
 		kinds[fmt.Sprintf("%T", o.O)]++
 	}
 	r.Bounds["pool_kinds"] = kinds
-	r.Rule = "every ordered pair of a pool of all 12 kinds (lattice points as Point/SimplePoint/Feature, all rectangles and their 5-point polygons, all 2-position and a slice of 3-position lines, simple rings <= 4, polygons with holes, empties, Multi*/GeometryCollection/FeatureCollection/Feature wraps incl. nested, circles with radii around one lattice step): duality, symmetry, contains => intersects and rect cover, intersects => rects meet, reflexivity, and transparency of Feature / Rect / SimplePoint / leaf-vs-geometry level; plus big objects: zigzag LineStrings and Polygons with 33..65538 segments (either side of the index thresholds and of the 1/2/4-byte segment-number boundaries) under QuadTree / RTree / no index x 10 probe objects at each of ~25 first / last / boundary-numbered segments: the same laws, independence of the index kind, exact point membership; and the same zigzags (33..4,097 segments) translated through Move by 4 offsets (inexact in binary, and beyond the own extent) probed at their own positions; non-trivial = rectangles of the two objects meet"
+	r.Rule = "every ordered pair of a pool of all 12 kinds (lattice points as Point/SimplePoint/Feature, all rectangles and their 5-point polygons, all 2-position and a slice of 3-position lines, simple rings <= 4, polygons with holes, empties, Multi*/GeometryCollection/FeatureCollection/Feature wraps incl. nested, circles with radii around one lattice step): duality, symmetry, contains => intersects and rect cover, intersects => rects meet, reflexivity, and transparency of Feature / Rect / SimplePoint / leaf-vs-geometry level; the Spatial interface of every object given the base geometry of every leaf object answers as the object-level predicate; plus big objects: zigzag LineStrings and Polygons with 33..65538 segments (either side of the index thresholds and of the 1/2/4-byte segment-number boundaries) under QuadTree / RTree / no index x 10 probe objects at each of ~25 first / last / boundary-numbered segments: the same laws, independence of the index kind, exact point membership; and the same zigzags (33..4,097 segments) translated through Move by 4 offsets (inexact in binary, and beyond the own extent) probed at their own positions; non-trivial = rectangles of the two objects meet"
 	r.Assume = []string{"laws are checked on the real answers only (no geometry oracle); a violated law whose exact pair is listed as a consequence of a listed leaf defect is a known finding"}
 	r.Describe = func(cur any) (rt.Case, bool) {
 		c, ok := cur.(*objCur)
@@ -131,6 +131,16 @@ func runC09(r *rt.Run) {
 					fail("leaf-intersects-vs-geometry", A, B, fmt.Sprint(gi), fmt.Sprint(ab.i))
 				}
 			}
+			// the Spatial interface (the double-dispatch target that callers such as
+			// Tile38 also use directly): given B's base geometry it answers as the
+			// object-level predicate given B
+			if B.Geom != nil {
+				sw, si, ok := spatialAnswers(A.O, B.Geom)
+				w.Evals += 2
+				if ok && (sw != ab.w || si != ab.i) {
+					fail("spatial-interface", A, B, fmt.Sprintf("within=%v intersects=%v (object level)", ab.w, ab.i), fmt.Sprintf("Spatial(): within=%v intersects=%v", sw, si))
+				}
+			}
 			// transparency: every alternative representation of A answers as A
 			for _, e := range A.Equiv {
 				E := pool.objs[e]
@@ -159,6 +169,27 @@ func runC09(r *rt.Run) {
 	c09BigMoved(r)
 	r.Sample(objCase("duality", pool.objs[3], pool.objs[n/2]))
 	r.Sample(objCase("transparency-receiver", pool.objs[1], pool.objs[n-3]))
+}
+
+// spatialAnswers asks a's Spatial interface about the raw geometry g.
+func spatialAnswers(a geojson.Object, g geometry.Geometry) (within, intersects, ok bool) {
+	defer func() {
+		if r := recover(); r != nil {
+			ok = false
+		}
+	}()
+	s := a.Spatial()
+	switch v := g.(type) {
+	case geometry.Point:
+		return s.WithinPoint(v), s.IntersectsPoint(v), true
+	case geometry.Rect:
+		return s.WithinRect(v), s.IntersectsRect(v), true
+	case *geometry.Line:
+		return s.WithinLine(v), s.IntersectsLine(v), true
+	case *geometry.Poly:
+		return s.WithinPoly(v), s.IntersectsPoly(v), true
+	}
+	return false, false, false
 }
 
 func evalC09(c *rt.Case) (bool, string, string, error) {
@@ -194,6 +225,9 @@ func evalC09(c *rt.Case) (bool, string, string, error) {
 			return ab.c && !B.O.Empty() && !rectCovers(ra, rb), "A.Rect covers B.Rect", fmt.Sprintf("%v %v", ra, rb), nil
 		case "intersects=>rects-meet":
 			return ab.i && !ra.IntersectsRect(rb), "rectangles intersect", fmt.Sprintf("%v %v", ra, rb), nil
+		case "spatial-interface":
+			sw, si, ok := spatialAnswers(A.O, B.Geom)
+			return ok && (sw != ab.w || si != ab.i), fmt.Sprintf("within=%v intersects=%v", ab.w, ab.i), fmt.Sprintf("Spatial(): within=%v intersects=%v", sw, si), nil
 		case "leaf-contains-vs-geometry":
 			gc := libContains(A.Geom, B.Geom)
 			return gc != ab.c, fmt.Sprint(gc), fmt.Sprint(ab.c), nil
